@@ -444,23 +444,130 @@ class ScriptSocket(_socket.socket):
         self.pos = 0
         self.script = list(script or [])
         self.i = 0
+        self.events = []
 
     def recv(self, n, flags=0):
         if self.i < len(self.script):
             ent = self.script[self.i]
             self.i += 1
             if ent[0] == 't':
+                self.events.append('fault')
                 raise TimeoutError("scripted")
             if ent[0] == 'o':
+                self.events.append('fault')
                 raise OSError("scripted")
             if ent[0] == 'c':
+                self.events.append('closed')
                 return b""
             k = min(ent[1], n, len(self.d) - self.pos)
         else:
             k = min(n, len(self.d) - self.pos)
+        if k == 0:
+            self.events.append('closed')
         out = self.d[self.pos:self.pos + k]
         self.pos += k
         return out
+
+
+def replay_sockread(case):
+    from pyrtcm.socketwrapper import SocketWrapper
+    data = bytes.fromhex(case['data'])
+    sock = ScriptSocket(data, case.get('recv_log'))
+    failed = []
+    try:
+        w = SocketWrapper(sock, bufsize=case.get('bufsize', 4096), encoding=case.get('encoding', 0))
+        delivered = b""
+        for k in case.get('calls', []):
+            sock.events = []
+            if k == 'line':
+                got = w.readline()
+                if b"\r\n" in got[:-2]:
+                    failed.append("readline continued past a CRLF")
+                if not got.endswith(b"\r\n") and 'closed' not in sock.events and 'fault' not in sock.events and len(delivered + got) < len(data):
+                    failed.append("readline ended without CRLF although the peer has not closed")
+            else:
+                got = w.read(k)
+                if len(got) > k:
+                    failed.append(f"read({k}) returned {len(got)} bytes")
+                if len(got) < k and not sock.events:
+                    failed.append(f"read({k}) returned {len(got)} bytes without close or timeout")
+            delivered += bytes(got)
+            if not data.startswith(delivered):
+                failed.append("delivered bytes are not a prefix of the stream")
+                break
+            if delivered + bytes(w.buffer) != data[:sock.pos]:
+                failed.append("delivered + buffered bytes differ from the bytes received so far")
+                break
+    except Exception as e:  # noqa
+        failed.append(f"exception {type(e).__name__}: {e}")
+    finally:
+        sock.close()
+    return {"reproduced": bool(failed), "failed": failed, "detail": "; ".join(failed)[:500] or "ok"}
+
+
+def ref_dechunk(stream):
+    """RFC 9112 chunked-body reference over the unsegmented stream: list of chunk bodies"""
+    out = []
+    i = 0
+    while i < len(stream):
+        j = stream.find(b"\r\n", i)
+        if j < 0:
+            break
+        line = stream[i:j].split(b";")[0].strip()
+        try:
+            n = int(line, 16)
+        except ValueError:
+            break
+        i = j + 2
+        if n == 0:
+            break
+        if i + n > len(stream):
+            break
+        out.append(stream[i:i + n])
+        i += n
+        if stream[i:i + 2] != b"\r\n":
+            break
+        i += 2
+    return out
+
+
+def replay_chunked(case):
+    import pyrtcm.socketwrapper as sw
+    from pyrtcm.socketwrapper import SocketWrapper
+    data = bytes.fromhex(case['data'])
+    enc = case['encoding']
+    failed = []
+
+    def fake_decompress(chunk, wbits=15, bufsize=None):   # stand-in for zlib (FFI): tags the bytes it was applied to
+        return bytes([wbits & 0xFF]) + bytes(chunk)
+    old = sw.decompress
+    sw.decompress = fake_decompress
+    sock = ScriptSocket(data, case.get('recv_log'))
+    try:
+        w = SocketWrapper(sock, encoding=enc, bufsize=case.get('bufsize', 4096))
+        got = b""
+        for _ in range(4 * len(data) + 8):
+            d = w.read(1)
+            if len(d) == 0:
+                break
+            got += bytes(d)
+        exp = b""
+        for body in ref_dechunk(data):
+            if enc & 2:
+                body = fake_decompress(body, wbits=15 | 16)
+            if enc & 4:
+                body = fake_decompress(body, wbits=15)
+            if enc & 8:
+                body = fake_decompress(body, wbits=-15)
+            exp += body
+        if got != exp:
+            failed.append(f"delivered {got!r}, chunk bodies give {exp!r}")
+    except Exception as e:  # noqa
+        failed.append(f"exception {type(e).__name__}: {e}")
+    finally:
+        sw.decompress = old
+        sock.close()
+    return {"reproduced": bool(failed), "failed": failed, "detail": "; ".join(failed)[:500] or "ok"}
 
 
 def frame_ok(raw):
@@ -751,7 +858,7 @@ def replay_parseseq(case):
     return {"reproduced": bool(failed), "failed": failed, "detail": "; ".join(failed)[:500] or "ok"}
 
 
-REPLAYERS = {'parseseq': replay_parseseq, 'roundtrip': replay_roundtrip, 'labelopt': replay_labelopt, 'crcseq': replay_crcseq, 'crc': replay_crc, 'construct': replay_construct, 'stream': replay_stream, 'socket': replay_stream, 'parse': replay_parse}
+REPLAYERS = {'chunked': replay_chunked, 'sockread': replay_sockread, 'parseseq': replay_parseseq, 'roundtrip': replay_roundtrip, 'labelopt': replay_labelopt, 'crcseq': replay_crcseq, 'crc': replay_crc, 'construct': replay_construct, 'stream': replay_stream, 'socket': replay_stream, 'parse': replay_parse}
 
 
 def replay(case):
